@@ -865,3 +865,7 @@ mod tests {
         assert_eq!(opcode(&meta), Some(OpCode::ReceiveInit));
     }
 }
+
+#[cfg(any(kani, verif_replay))]
+#[path = "/verif/kani/bdx.rs"]
+pub(crate) mod verif_kani_bdx;
